@@ -241,11 +241,6 @@ theorem qr_solve_square_det (sqrt : K → K) (n rs cs : Nat) (A b : Array K) (o 
     x.size = n ∧ matOf A rs cs n n *ᵥ vecOf x n = vecOf b n :=
   qr_solve_square sqrt n rs cs A b o L hex (fun _ hy => Matrix.eq_zero_of_mulVec_eq_zero hdet hy)
 
-theorem matOf_transpose (A : Array K) (rs cs m n : Nat) : (matOf A rs cs m n)ᵀ = matOf A cs rs n m := by
-  ext i j
-  show A.getD (j.val * rs + i.val * cs) 0 = A.getD (i.val * cs + j.val * rs) 0
-  rw [Nat.add_comm]
-
 /-- `solve` for `rows < cols` and a matrix with linearly independent rows (`Aᵀ·y = 0 → y = 0`): the result solves `A·x = b`,
 lies in the range of `Aᵀ`, and has minimal norm among all solutions.  The roots taken are those of `compute` on the
 transposed matrix (`cols×rows`, strides swapped). -/
